@@ -21,6 +21,11 @@ func init() {
 					Type: "symbol|lambda",
 					Text: `A function that takes as many argument as there are sequences.`,
 				},
+				{
+					Name: "sequence",
+					Type: "sequence",
+					Text: "The first sequence.",
+				},
 				{Name: "&rest"},
 				{
 					Name: "sequences",
